@@ -43,20 +43,21 @@ Definition call_rw_flush : MC (io unit) := fun w =>
   end.
 
 Definition chain_read (buf : list Z) : MC (io Z * list Z) :=
-  some_1 <- get_reader_is_some ;;
-  k_2 <- (if some_1 then
-            q_3 <- call_reader_read buf ;;
-            match q_3 with
-            | (Ok num_read, buf_4) =>
-                if (num_read =? 0) && negb (zlen buf =? 0) then
-                  set_reader_none ;;; ret (inr buf_4)
-                else ret (inl (Ok num_read, buf_4))
-            | (Err e, buf_4) => ret (inl (Err e, buf_4))
+  k_5 <- (reader_1 <- get_reader_is_some ;;
+          if reader_1 then
+            q_2 <- call_reader_read buf ;;
+            let buf_3 := snd q_2 in
+            match fst q_2 with
+            | Ok p_4 =>
+                if (p_4 =? 0) && negb (zlen buf_3 =? 0) then
+                  set_reader_none ;;; ret (inr buf_3)
+                else ret (inl (Ok p_4, buf_3))
+            | Err e => ret (inl (Err e, buf_3))
             end
           else ret (inr buf)) ;;
-  match k_2 with
-  | inl r => ret r
-  | inr buf_5 => call_rw_read buf_5
+  match k_5 with
+  | inl r_6 => ret r_6
+  | inr buf_7 => call_rw_read buf_7
   end.
 Definition chain_write (buf : list Z) : MC (io Z) := call_rw_write buf.
 Definition chain_flush : MC (io unit) := call_rw_flush.
@@ -98,15 +99,17 @@ Definition take_read (buf : list Z) : MT (io Z * list Z) :=
   if remaining_bytes_1 =? 0 then ret (Ok 0, buf) else
   remaining_bytes_2 <- get_remaining_bytes ;;
   let num_to_read := Z.min remaining_bytes_2 (zlen buf) in
-  dest <- slice_chk buf 0 num_to_read ;;
-  q_3 <- tcall_rw_read dest ;;
-  match q_3 with
-  | (Ok num_read, dest_4) =>
+  (* let dest = &mut buf[0..num_to_read]: bounds check, then dest aliases that part of buf *)
+  assert_ ((0 <=? num_to_read) && (num_to_read <=? zlen buf)) ;;;
+  q_3 <- tcall_rw_read (slice buf 0 num_to_read) ;;
+  let buf_4 := splice buf 0 (snd q_3) in
+  match fst q_3 with
+  | Ok num_read =>
       remaining_bytes_5 <- get_remaining_bytes ;;
       dif_6 <- usub chk remaining_bytes_5 num_read ;;
       set_remaining_bytes dif_6 ;;;
-      ret (Ok num_read, splice buf 0 dest_4)
-  | (Err e, dest_4) => ret (Err e, splice buf 0 dest_4)
+      ret (Ok num_read, buf_4)
+  | Err e => ret (Err e, buf_4)
   end.
 Definition take_write (buf : list Z) : MT (io Z) := tcall_rw_write buf.
 Definition take_flush : MT (io unit) := tcall_rw_flush.
